@@ -1,6 +1,10 @@
 package rv
 
 import (
+	"regexp"
+	"go/types"
+	"go/constant"
+	"go/ast"
 	"fmt"
 	"go/token"
 	"strings"
@@ -11,7 +15,7 @@ import (
 func init() {
 	Registry["C34"] = RuleDef{Module: ".", Run: runC34,
 		Technique:   "normal-form check of the quorum arithmetic, guard rules on the success return and on the cancellation of the lock context, ordering rules (cancel before waiting for release; key deletion only after the monitor loop ended) over the SSA of locker.try and its closures",
-		Explanation: "Decides client-side necessary conditions only: (R34a) the number of keys is 2*majority-1 for the very majority that the counters are compared with, so two holders cannot both own a majority; (R34b) try reports success only when the deadline timer had not fired and fewer than a majority of acquisitions failed, the acquisition loop runs while both counters are below the majority and every iteration bumps exactly one of them by 1, the remaining keys up to totalcnt are attempted too and every attempted key gets a monitor; (R34c) the unlock function cancels the lock context before it waits for the keys to be released, and a monitor deletes its key only after its loop ended (context done, extension failed or locker closed); (R34d) once a majority of monitors have ended the lock context is cancelled before anything else happens, and `done` is closed exactly when all of them ended; (R34e) extension and deletion use the holder's own random value and key; (R34f) a failed extension ends the monitor: nothing inside the monitor loop resets the loop-carried error to nil; (R34g) the gate's wake-up token is consumed only by the blocking wait of WithContext, never drained between a failed try and the wait; (R34h) the lock scripts, which are built retryable, contain no non-idempotent command (lint over the script text).",
+		Explanation: "Decides client-side necessary conditions only: (R34a) the number of keys is 2*majority-1 for the very majority that the counters are compared with, so two holders cannot both own a majority; (R34b) try reports success only when the deadline timer had not fired and fewer than a majority of acquisitions failed, the acquisition loop runs while both counters are below the majority and every iteration bumps exactly one of them by 1, the remaining keys up to totalcnt are attempted too and every attempted key gets a monitor; (R34c) the unlock function cancels the lock context before it waits for the keys to be released, and a monitor deletes its key only after its loop ended (context done, extension failed or locker closed); (R34d) once a majority of monitors have ended the lock context is cancelled before anything else happens, and `done` is closed exactly when all of them ended; (R34e) extension and deletion use the holder's own random value and key; (R34f) a failed extension ends the monitor: nothing inside the monitor loop resets the loop-carried error to nil; (R34g) the gate's wake-up token is consumed only by the blocking wait of WithContext, never drained between a failed try and the wait; (R34i) every lock script that writes its key reads it again afterwards (re-arming client tracking for the holder's connection); (R34j) the invalidation handler parses keys as the inverse of keyname (prefix stripped by length, one split); (R34h) the lock scripts, which are built retryable, contain no non-idempotent command (lint over the script text).",
 		NotDecided:  "mutual exclusion itself (server-side SET NX / scripts, key expiry against wall-clock time, cross-process schedules), promptness of loss detection, wake-up of WithContext waiters."}
 }
 
@@ -383,6 +387,97 @@ func runC34(r *Report) {
 			}
 		}
 		r.Anchor("R34g", "WithContext: wait on the gate", n == 1)
+	}
+	// R34i: scripts that write a lock key end by reading it again. The holder learns about the loss
+	// of a key through client tracking, and a write (SET, PEXPIREAT) drops the tracking entry of the
+	// writer's own connection; the trailing GET re-registers it (lint over the script text).
+	{
+		pkg := r.P.Pkg("rueidis/rueidislock")
+		n := 0
+		if pkg != nil {
+			re := regexp.MustCompile(`redis\.call\(\s*["']([A-Za-z]+)["']`)
+			for _, f := range pkg.Syntax {
+				ast.Inspect(f, func(nd ast.Node) bool {
+					ce, ok := nd.(*ast.CallExpr)
+					if !ok || len(ce.Args) == 0 {
+						return true
+					}
+					sel, ok := ce.Fun.(*ast.SelectorExpr)
+					if !ok || !strings.HasPrefix(sel.Sel.Name, "NewLuaScript") {
+						return true
+					}
+					tv, ok := pkg.TypesInfo.Types[ce.Args[0]]
+					if !ok || tv.Value == nil || tv.Value.Kind() != constant.String {
+						return true
+					}
+					src := constant.StringVal(tv.Value)
+					ms := re.FindAllStringSubmatchIndex(src, -1)
+					lastWrite, lastGet := -1, -1
+					for _, m := range ms {
+						cmd := strings.ToUpper(src[m[2]:m[3]])
+						switch cmd {
+						case "SET", "PEXPIREAT", "PEXPIRE", "EXPIRE", "EXPIREAT":
+							lastWrite = m[0]
+						case "GET":
+							lastGet = m[0]
+						}
+					}
+					if lastWrite < 0 {
+						return true
+					}
+					n++
+					r.Ob("R34i", nil, "tracking-re-armed-after-write:"+types.ExprString(ce.Args[0])[:min(24, len(types.ExprString(ce.Args[0])))], ce.Pos(), lastGet > lastWrite, "a script that writes the lock key reads it again afterwards, so that the holder's connection keeps tracking the key")
+					return true
+				})
+			}
+		}
+		r.Anchor("R34i", "lock scripts that write their key (>= 5)", n >= 5)
+	}
+	// R34j: the invalidation handler parses a key as the inverse of keyname (prefix ":" index ":"
+	// name): the prefix is removed by its length - it may itself contain colons - and the rest is
+	// split once, into index and name (the name may contain colons too).
+	if oi := r.FnAnchor("R34j", L+"(*locker).onInvalidations"); oi != nil {
+		n := 0
+		for _, s := range CallSites(oi, "strings.SplitN") {
+			n++
+			a := s.Call().Common().Args
+			cnt, isc := ConstInt(a[2])
+			sep, iss := ConstString(a[1])
+			sl, issl := a[0].(*ssa.Slice)
+			byLen := false
+			if issl && sl.Low != nil {
+				// low = len(prefix) + 1
+				if bo, isb := sl.Low.(*ssa.BinOp); isb && bo.Op == token.ADD {
+					k, isk := ConstInt(bo.Y)
+					lc, isl := bo.X.(*ssa.Call)
+					byLen = isk && k == 1 && isl && CalleeName(lc) == "builtin.len" && strings.HasSuffix(DescDeep(lc.Call.Args[0]), ".prefix")
+				}
+			}
+			hasPrefix := false
+			for _, g := range DomGuards(s.Block) {
+				if c, isc2 := g.Cond.(*ssa.Call); isc2 && g.Pol && CalleeName(c) == "strings.HasPrefix" && strings.HasSuffix(DescDeep(c.Call.Args[1]), ".prefix") {
+					hasPrefix = true
+				}
+			}
+			r.ObSite("R34j", s, "key-parsed-as-inverse-of-keyname", isc && cnt == 2 && iss && sep == ":" && byLen && hasPrefix, "the prefix is stripped by its own length under a HasPrefix test and the remainder is split once at ':' into index and name")
+		}
+		r.Anchor("R34j", "onInvalidations: key split", n == 1)
+	}
+	if kn := r.FnAnchor("R34j", L+"keyname"); kn != nil {
+		// prefix, ':', index, ':', name in this order
+		var seq []string
+		for _, s := range Sites(kn, func(in ssa.Instruction) bool {
+			c, ok := in.(*ssa.Call)
+			return ok && (CalleeName(c) == "strings.(*Builder).WriteString" || CalleeName(c) == "strings.(*Builder).WriteByte")
+		}) {
+			a := s.Call().Common().Args[1]
+			if k, isk := ConstInt(a); isk {
+				seq = append(seq, string(rune(k)))
+			} else {
+				seq = append(seq, Desc(a))
+			}
+		}
+		r.Ob("R34j", kn, "keyname-layout", kn.Pos(), len(seq) == 5 && seq[0] == "p0" && seq[1] == ":" && seq[3] == ":" && seq[4] == "p1", fmt.Sprintf("keyname writes prefix ':' index ':' name; got %v", seq))
 	}
 	_ = p
 }
